@@ -12,7 +12,7 @@ use tokio::sync::broadcast;
 use tokio::sync::mpsc::{self, UnboundedReceiver, UnboundedSender};
 
 use std::collections::HashSet;
-use std::sync::{Arc, RwLock};
+use std::sync::{Arc, Mutex, RwLock};
 
 use scru128::Scru128Id;
 
@@ -178,6 +178,7 @@ pub struct Store {
     contexts: Arc<RwLock<HashSet<Scru128Id>>>,
     broadcast_tx: broadcast::Sender<Frame>,
     gc_tx: UnboundedSender<GCTask>,
+    append_lock: Arc<Mutex<()>>,
 }
 
 impl Store {
@@ -221,6 +222,7 @@ impl Store {
             contexts: Arc::new(RwLock::new(contexts)),
             broadcast_tx,
             gc_tx,
+            append_lock: Arc::new(Mutex::new(())),
         };
 
         // Load context registrations
@@ -551,6 +553,10 @@ impl Store {
     pub fn append(&self, mut frame: Frame) -> Result<Frame, crate::error::Error> {
         #[cfg(xs_verif)]
         crate::verif::point("append.enter", 0);
+        // Id assignment, commit and broadcast form one critical section: frames become
+        // visible, and are sent to subscribers, in id order even with concurrent writers.
+        let _append_guard = self.append_lock.lock().unwrap();
+
         frame.id = scru128::new();
         #[cfg(xs_verif)]
         if let Some(id) = crate::verif::new_id() {
